@@ -383,7 +383,8 @@ func c20GenLabAddr(r *rand.Rand) labAddr {
 	case 9:
 		t = tmpl{fmt.Sprintf("/ip6/2606:4700:%x::%x", r.Intn(65536), 1+r.Intn(65535)), "public"}
 	case 10:
-		t = tmpl{[]string{"/dns/", "/dns4/", "/dns6/"}[r.Intn(3)] + "localhost", "localhost"}
+		// (host names are case-insensitive and may be written fully qualified with a trailing dot)
+		t = tmpl{[]string{"/dns/", "/dns4/", "/dns6/"}[r.Intn(3)] + []string{"localhost", "localhost", "LOCALHOST", "LocalHost", "localhost."}[r.Intn(5)], "localhost"}
 	case 11:
 		t = tmpl{[]string{"/dns/", "/dns4/", "/dns6/", "/dnsaddr/"}[r.Intn(4)] + []string{"example.com", "cid.contact", "localhost.example.org", "notlocalhost"}[r.Intn(4)], "dns"}
 	case 12:
